@@ -295,7 +295,15 @@ func (w *c09Walker) visit(box bo.Box, parent bo.Box) {
 			kind = "grid"
 		}
 		w.labels[kind+"-container"] = true
-		for _, c := range inflow {
+		// float does not apply to the children of a flex or grid container (Flexbox 3, Grid 6.1): a floated
+		// child is an item like the others; only absolutely positioned and running children are not
+		var items []bo.Box
+		for _, c := range bf.Children {
+			if cb := c.Box(); !cb.IsAbsolutelyPositioned() && !cb.IsRunning() && !cb.IsFootnote() {
+				items = append(items, c)
+			}
+		}
+		for _, c := range items {
 			cf := c.Box()
 			if !isBlockLevel(c) || bo.TextT.IsInstance(c) || bo.LineT.IsInstance(c) {
 				w.fail(kind+"-item-not-blockified:"+c.Type().String(), "%s container %s holds the in-flow %s, which is not block-level", kind, name, c09Name(c))
